@@ -42,8 +42,16 @@ template <
         std::conjunction_v<std::is_unsigned<Value>, fcppt::enum_::is_object<Enum>>>>
 fcppt::optional::object<Enum> from_int(Value const &_value) noexcept
 {
+  // Compare in the wider of the two unsigned types: narrowing _value first
+  // would map e.g. 256 to enumerator 0 of an enum with an 8 bit underlying type.
+  using compare_type = std::conditional_t<
+      (sizeof(Value) > sizeof(fcppt::enum_::size_type<Enum>)),
+      Value,
+      fcppt::enum_::size_type<Enum>>;
+
   return fcppt::optional::make_if(
-      fcppt::cast::size<fcppt::enum_::size_type<Enum>>(_value) < fcppt::enum_::size<Enum>::value,
+      fcppt::cast::size<compare_type>(_value) <
+          fcppt::cast::size<compare_type>(fcppt::enum_::size<Enum>::value),
       [&_value] { return fcppt::cast::int_to_enum<Enum>(_value); });
 }
 }
